@@ -4,11 +4,14 @@ from hypothesis import strategies as st
 
 from vf import gen_shell
 
-BASE_POOL = ['Toaster', 'File_1', 'model', 'X', 'MyModel', 'a']
+# incl. names that end in the characters of the '.dzn' extension
+BASE_POOL = ['Toaster', 'File_1', 'model', 'X', 'MyModel', 'a', 'Garden', 'Buzz', 'Grid', 'dzn']
 SUFFIX_POOL = ['Shell', 'AdvShell', '_adv', 'X', 'Shell2']
 # incl. prefixes that repeat the name the generator appends itself (Dzn)
 PREFIX_POOL = [None, None, ['My'], ['Lib', 'Util'], ['a', 'b', 'c'], ['Company_1'], ['Dzn'],
-               ['Acme', 'Dzn'], ['Dzn', 'Tools']]
+               ['Acme', 'Dzn'], ['Dzn', 'Tools'],
+               # a deep prefix: the file names derived from it are > 140 characters long
+               [f'Level{i}_abcdef' for i in range(12)]]
 COPYRIGHTS = ['Copyright (c) me', '(c) A\nline two\n\n  indented', '', 'x */ #include <y> \\',
               'tab\tsep\x0cform feed', '// already a comment', 'cafe\u0301 \u2126 A\u030a (not NFC)',
               '\u00e9 \u00fc \u00a9 precomposed',
@@ -211,6 +214,8 @@ def alternate_histories(cases, kinds):
 # registration order = list order; families in which identifiers are prefixes of one another
 # (longer first / shorter first) and one in reverse lexical order
 CLIENT_NAMINGS = {
+    # identifiers with surrounding white space (~s = blank, ~t = tab, ~r = CR in the driver's notation)
+    'padded': ['Alice~s', '~sBob', 'Carol~t', 'Dave~r'],
     'plain': ['A', 'B', 'C', 'D'],
     'K': ['K0', 'K1', 'K2', 'K3'],
     'prefix-desc': ['client10', 'client1', 'client', 'c'],
